@@ -293,13 +293,15 @@ DOC = {
                     "invalid": [("enum", "smpte"), ("enum", "FRAMES"), ("type", 5), ("type", True)], "default": None},
     "fps": {"used": "writer:ttml", "valid": ["25/1", "30/1", "24/1", "30000/1001", "50/1"],
             "invalid": [("syntax", "25"), ("syntax", "a/b"), ("syntax", "25/0"), ("syntax", "25/1/1"), ("type", 25), ("type", True),
-                        ("range", "0/1"), ("range", "1/3"), ("range", "-25/1"), ("range", "1/2")], "default": None},
+                        ("range", "0/1"), ("range", "1/3"), ("range", "-25/1"), ("range", "1/2"), ("syntax", " 25/1"), ("syntax", "+25/1"),
+                        ("syntax", "2_5/1")], "default": None},
   },
   "stl_reader": {
     "disable_fill_line_gap": {"used": "reader:stl", "valid": _BOOL_VALID, "invalid": _BOOL_INVALID, "default": False},
     "disable_line_padding": {"used": "reader:stl", "valid": _BOOL_VALID, "invalid": _BOOL_INVALID, "default": False},
     "program_start_tc": {"used": "reader:stl", "valid": ["TCP", "00:00:00:00", "00:00:01:00", "10:00:00:00"],
-                         "invalid": [("syntax", "banana"), ("syntax", "10:00:00"), ("type", 5), ("type", True)], "default": "00:00:00:00"},
+                         "invalid": [("syntax", "banana"), ("syntax", "10:00:00"), ("type", 5), ("type", True), ("syntax", "10:00:00:00xyz")],
+                         "default": "00:00:00:00"},
     "font_stack": {"used": "reader:stl", "valid": ["Verdana, Arial, Tiresias, sansSerif", "monospace", "Arial, proportionalSansSerif"],
                    "invalid": [("type", 5), ("type", True), ("type", ["Arial"])], "default": "Verdana, Arial, Tiresias, sansSerif"},
     "max_row_count": {"used": "reader:stl", "valid": ["MNR", 23, 11, 99], "invalid": [("syntax", "abc"), ("type", [23]), ("type", 1.5)],
@@ -320,7 +322,8 @@ DOC = {
   },
   "lcd": {
     "safe_area": {"used": "filter:lcd", "valid": [0, 10, 30, 5, 29],
-                  "invalid": [("range", -1), ("range", 31), ("range", 100), ("type", "x"), ("type", [10])], "default": 10},
+                  "invalid": [("range", -1), ("range", 31), ("range", 100), ("type", "x"), ("type", [10]), ("type", 10.5), ("type", "10"),
+                              ("type", True)], "default": 10},
     "color": {"used": "filter:lcd", "valid": _COLORS + [None], "invalid": _COLOR_INVALID, "default": None},
     "bg_color": {"used": "filter:lcd", "valid": _COLORS, "invalid": _COLOR_INVALID, "default": None},
     "preserve_text_align": {"used": "filter:lcd", "valid": _BOOL_VALID, "invalid": _BOOL_INVALID, "default": False},
